@@ -6,6 +6,7 @@ import (
 	"errors"
 	"fmt"
 	"io"
+	"unsafe"
 )
 
 // ErrInjected is the custom reader failure; ErrWrapped wraps it, so that
@@ -45,7 +46,9 @@ type Reader struct {
 	// Batches records the offsets (first 64, excluding 0) at which the consumer
 	// started a new read batch: a Read whose len(p) is not what was left of the
 	// previous request.  Implementation-agnostic view of "refill happened here".
-	Batches  []int
+	Batches []int
+	// Lent holds every distinct buffer the consumer passed to Read.
+	Lent     [][]byte
 	lastLeft int
 }
 
@@ -64,6 +67,7 @@ func (r *Reader) Read(p []byte) (int, error) {
 	if len(p) == 0 {
 		return 0, nil
 	}
+	r.noteLent(p)
 	if len(p) != r.lastLeft && r.Off > 0 && len(r.Batches) < 64 {
 		r.Batches = append(r.Batches, r.Off)
 	}
@@ -115,6 +119,39 @@ func (r *Reader) Read(p []byte) (int, error) {
 }
 
 // Unread returns the bytes of Data[:Cut] not yet handed out.
+// noteLent keeps the buffers the consumer passed to Read: holding them keeps
+// their memory from being reused, so "this result points into a buffer that
+// was handed to Read" is decidable later (LentContains).
+func (r *Reader) noteLent(p []byte) {
+	full := p[:cap(p)]
+	base := uintptr(unsafe.Pointer(unsafe.SliceData(full)))
+	for i, q := range r.Lent {
+		qb := uintptr(unsafe.Pointer(unsafe.SliceData(q)))
+		if base >= qb && base+uintptr(len(full)) <= qb+uintptr(len(q)) {
+			return
+		}
+		if qb >= base && qb+uintptr(len(q)) <= base+uintptr(len(full)) {
+			r.Lent[i] = full
+			return
+		}
+	}
+	if len(r.Lent) < 256 {
+		r.Lent = append(r.Lent, full)
+	}
+}
+
+// LentContains reports whether address a lies inside a buffer that was passed
+// to Read (the consumer's own read buffer, present or past).
+func (r *Reader) LentContains(a uintptr) bool {
+	for _, q := range r.Lent {
+		qb := uintptr(unsafe.Pointer(unsafe.SliceData(q)))
+		if a >= qb && a < qb+uintptr(len(q)) {
+			return true
+		}
+	}
+	return false
+}
+
 func (r *Reader) Unread() []byte { return r.Data[r.Off:r.Cut] }
 
 // ByteReader adds io.ByteReader to Reader (thrift branches on it).
